@@ -236,6 +236,9 @@ func (x *Exec) evalModItem(env *Env, it *Expr) modTarget {
 			return modTarget{whole: true, ghost: it.Name, key: "ghost:" + it.Name}
 		}
 	}
+	if it.Kind == "class" {
+		return modTarget{whole: true, key: it.Name}
+	}
 	if it.Kind == "allelems" {
 		v := x.evalExpr(env, it.X)
 		s, ok := v.(SliceV)
@@ -263,9 +266,6 @@ func (x *Exec) wholeLeafKey(env *Env, e *Expr) (string, types.Type, bool) {
 	if cur.Kind != "ident" {
 		return "", nil, false
 	}
-	if _, isVar := env.lookupVar(cur.Name); isVar {
-		return "", nil, false
-	}
 	pkg := x.P.pkgByName[cur.Name]
 	if pkg == nil || len(parts) < 1 {
 		return "", nil, false
@@ -274,6 +274,14 @@ func (x *Exec) wholeLeafKey(env *Env, e *Expr) (string, types.Type, bool) {
 	tn, ok := obj.(*types.TypeName)
 	if !ok {
 		return "", nil, false
+	}
+	if v, isVar := env.lookupVar(cur.Name); isVar {
+		// a variable shadows the package only if it has such a field
+		if p, ok := v.(Ptr); ok {
+			if _, _, _, err := typeAtPath(p.Root, append(append([]Step{}, p.Path...), Step{Field: parts[0]})); err == nil {
+				return "", nil, false
+			}
+		}
 	}
 	var path []Step
 	for _, f := range parts[1:] {
@@ -424,6 +432,9 @@ func (x *Exec) applyContract(fr *Frame, st *State, spec *FuncSpec, key string, n
 	// 2. havoc
 	mods := x.evalModifies(env, spec.Modifies)
 	x.applyHavoc(st, pre, spec, mods)
+	for _, gs := range spec.GhostSets {
+		x.setGhost(st, gs.Name, x.evalExpr(env, gs.Value))
+	}
 	nf := x.em.freshConst("F", "Int")
 	x.em.assume("(<= " + pre.Frontier + " " + nf + ")")
 	st.Frontier = nf
@@ -457,9 +468,17 @@ func (x *Exec) applyContract(fr *Frame, st *State, spec *FuncSpec, key string, n
 		post.vars[k] = v
 	}
 	x.bindResults(post, res, resNames)
+	for _, gs := range spec.GhostExits {
+		x.setGhost(st, gs.Name, x.evalExpr(post, gs.Value))
+	}
 	for _, c := range spec.Ensures {
 		p := x.evalBool(post, c.Expr)
 		x.em.assume(implies(st.Reach, p))
+	}
+	for _, c := range spec.Assumes {
+		p := x.evalBool(post, c.Expr)
+		x.em.assume(implies(st.Reach, p))
+		x.assumedClauses[key+" ["+c.Label+"]: "+c.Src] = true
 	}
 	return res
 }
